@@ -243,7 +243,7 @@ def stepThread (cfg : Cfg) (st : St) (now : Nat) (tid : Nat) (th : Thread) : St 
       | .increased, _ :: _ => Pc.inc rest thenA
       | _, _ => if thenA then Pc.allowed (chain cfg th.q) else Pc.done none
     (st.set k l', pc', [LEv.inc k th.r now res])
-  | .allowed [] => (st, .done (some true), [LEv.verdict tid th.r th.q true])
+  | .allowed [] => (st, .done none, [])
   | .allowed ((a, c) :: rest) =>
     let k := (a, groupOf c th.h)
     let (l', b) := allowedLevel (st.at k) th.r
